@@ -53,9 +53,13 @@ def run_property(prop: str, repo_root: str, tier: str, seed: int, *, write=True,
             if floor:
                 ctx.floor(rid, floor)
         known = load_known()
+        seen_keys = set()
         for ob in ctx.obs:
             if ob.status != "violation":
                 continue
+            if ob.key() in seen_keys:       # one report per (rule, construct)
+                continue
+            seen_keys.add(ob.key())
             k = match_known(known, prop, ob)
             if k is not None:
                 known_hits.append(ob)
